@@ -260,6 +260,15 @@ def run(repo, rep):
     from . import c15
 
     rep.run_borrowed(c15, {"C15-d": "C06-m"}, repo)
+    rep.clause("C06-q", "SHRAM layout written by the stream: IFM / accumulator partitions are sized per element with 8-channel rounding, double buffered and bank-granule aligned [rule shared with C15-c]")
+    rep.run_borrowed(c15, {"C15-c": "C06-q"}, repo)
+    rep.clause("C06-r", "the zero point register of every feature map is written on every path of its emitter (a scalar second operand still has a zero point that the hardware applies)")
+    rule_zero_point_always(repo, rep)
+    rep.clause("C06-s", "register / operand agreement of the emitter helpers [rule shared with C02-q]")
+    from .shared import register_operand_agreement as _roa
+
+    if _roa(repo, rep, "C06-s") < 8:
+        raise AnalysisError("register_command_stream_generator: fewer than 8 calls name both a register family and an operand")
     from . import c10
 
     rep.run_borrowed(c10, {"C10-d": "C06-m"}, repo)
@@ -1209,3 +1218,17 @@ def rule_stop(repo, rep, gen):
     rep.check(norm(stops[0].keywords[0].value if stops[0].keywords else stops[0].args[1]) == "65535", "C06-h", _site("generate_command_stream"),
               "stop mask parameter 0xFFFF", "changed")
     rep.floor("C06-h", 6)
+
+
+def rule_zero_point_always(repo, rep):
+    from ..cfg import cfg_of as _cfg
+
+    m = repo.mod("register_command_stream_generator")
+    for fname, reg in (("generate_ifm", "NPU_SET_IFM_ZERO_POINT"), ("generate_ifm2", "NPU_SET_IFM2_ZERO_POINT"), ("generate_ofm", "NPU_SET_OFM_ZERO_POINT")):
+        f = m.func(fname)
+        c = _cfg(f)
+        em = c.nodes_where(lambda n_: n_.stmt is not None and n_.kind != "test" and not isinstance(n_.stmt, (ast.If, ast.For, ast.While)) and f"cmd0.{reg}" in str(norm(n_.stmt)))
+        if not em:
+            raise AnalysisError(f"{fname}: no emission of {reg}")
+        rep.check(not c.path_avoiding(0, 1, em), "C06-r", f"ethosu/vela/register_command_stream_generator.py:{fname}", f"{reg} is written on every path through {fname}",
+                  f"a path through {fname} leaves without writing {reg}: the register keeps the value of an earlier operation (for a scalar IFM2 the hardware applies that stale zero point to IFM2_SCALAR)")
